@@ -606,6 +606,13 @@ class DilatedConnectionProtocol(Protocol):
     def disconnect(self):
         self.transport.loseConnection()
 
+    # called by Inbound, when subchannel consumers (un)pause inbound data
+    def pauseProducing(self):
+        self.transport.pauseProducing()
+
+    def resumeProducing(self):
+        self.transport.resumeProducing()
+
     # select() called by Connector
 
     # called by Manager
